@@ -12,12 +12,27 @@ import (
 // VERIF_NO_EXCLUDE=all (or a comma separated list of signatures) switches exclusions off, which
 // is how a proposed repair is verified.
 var knownOpen = map[string]bool{
-	sigMatchDropsCanaryRef: true,
-	sigFinaliseShare:       true,
-	sigDuplicateName:       true,
-	sigForeignNs:           true,
-	sigMixedTooWide:        true,
-	sigFinaliseBackendless: true,
+	// C13. buildCanaryHeaderHttpRoutes indexes matches[k] while ranging over nonPathMatches: with a
+	// path match listed before a header/query match the generated canary rule lacks the header
+	// condition. Steering: generated strategies list the non-path matches first.
+	sigMixedTooWide: false, // repaired by a fix: commit in /repo (see known_findings.json)
+	// C13. buildCanaryHeaderHttpRoutes skips (drops) every rule that carries a canary backendRef,
+	// also the user's rule that a previous weight step split. Steering: no match step once a
+	// rule carries a canary ref next to other backends.
+	sigMatchDropsCanaryRef: false, // repaired by a fix: commit in /repo (see known_findings.json)
+	// C13. Finalise drops every rule without backendRefs, also the user's RequestRedirect rule.
+	// Tolerance: the absence of a backend-less user rule after Finalise (only that).
+	sigFinaliseBackendless: false, // repaired by a fix: commit in /repo (see known_findings.json)
+	// C13. Finalise sets the stable weight to 1 whatever the user wrote: stable 50 / legacy 50
+	// becomes stable 1 / legacy 50. Tolerance: the traffic-share comparison of such a rule (only that).
+	sigFinaliseShare: true,
+	// C13. getServiceBackendRef ignores namespace and group: a backendRef to Service
+	// other-ns/<stable name> is treated as the stable Service. Steering: shape not generated.
+	sigForeignNs: true,
+	// C07 (b). A strategy header/query match naming a header that a match of the stable rule
+	// already names yields a generated match with a duplicate name; the Gateway API admission
+	// webhook rejects the update on every reconcile. Steering: colliding names are renamed.
+	sigDuplicateName: true,
 }
 
 func open(sig string) bool {
